@@ -1,6 +1,6 @@
 #!/bin/bash
-# usage: kone.sh <workdir> <harness> [timeout] [nloops] -- debugging helper: one harness, stats + hottest loops
-W=$1; H=$2; T=${3:-120}
-cd $W && (timeout $T cargo kani -Z stubbing -Z unstable-options --no-memory-safety-checks --no-assertion-reach-checks --exact --harness h::generated::$H --export-json /tmp/kone.json --cbmc-args --max-field-sensitivity-array-size 1024 > /tmp/kone.log 2>&1)
+# usage: kone.sh <workdir> <harness> [timeout] [nloops] [features] -- debugging helper: one harness, stats + hottest loops
+W=$1; H=$2; T=${3:-120}; F=${5:+--features $5}
+cd $W && (timeout $T cargo kani -Z stubbing -Z unstable-options --no-memory-safety-checks --no-assertion-reach-checks $F --exact --harness h::generated::$H --export-json /tmp/kone.json --cbmc-args --max-field-sensitivity-array-size 1024 > /tmp/kone.log 2>&1)
 if [ -f /tmp/kone.json ]; then python3 /verif/tools_stats.py /tmp/kone.json | cut -c1-180 | head -8; rm -f /tmp/kone.json; else echo "no json (timeout $T s?)"; fi
 grep -a "Unwinding loop" /tmp/kone.log | sed -E 's/iteration [0-9]+//; s/file .* function/fn/' | cut -c16-140 | sort | uniq -c | sort -rn | head -${4:-6}
